@@ -194,7 +194,7 @@ example : Forest 2 depth2 anc2 ∧ Chain 2 anc2 ∧ TreeSym 2 anc2 M2 ∧ (∀ i
   refine ⟨forest2, chain2, treeSym2, fun i hi => hi, ?_⟩
   intro k hk
   obtain ⟨h0, h1, _⟩ := factor2
-  interval_cases k
+  rcases (by omega : k = 0 ∨ k = 1) with rfl | rfl
   · rw [h0]; norm_num
   · rw [h1]; norm_num
 
@@ -207,8 +207,8 @@ example : DepthTri 2 depth2 (fun k i => if k = 1 ∧ i = 0 then (1 / 3 : ℝ) el
     by_cases hc : k = 1 ∧ i = 0
     · simp only [depth2]; omega
     · simp only [if_neg hc, ne_eq, not_true_eq_false] at h
-  · intro k hk; interval_cases k <;> norm_num
-  · intro k hk; interval_cases k <;> norm_num
+  · intro k hk; rcases (by omega : k = 0 ∨ k = 1) with rfl | rfl <;> norm_num
+  · intro k hk; rcases (by omega : k = 0 ∨ k = 1) with rfl | rfl <;> norm_num
 
 /-- a `_qLD_acc` task on the CSR layout of the two-dof chain (row 0 = [0], row 1 = [1, 2]; update (i,k,Madr_ki) = (0,1,1)),
     `L = [2, 1, 3]`: subtracts `1 · (1/3)` from cell 0 and stores `1/3` into cell 1 -/
